@@ -28,6 +28,95 @@ def batch_only_moved(ctx, rule):
 
 
 
+def source_priorities(ctx, rule):
+    """priority each source queues its events at: Interrupt/Terminate Urgent, other signals High, keyboard and filesystem Normal (shared with C02, C08)"""
+    facts = ctx.facts
+    sig = ctx.anchor_fn(rule, "watchexec::sources::signal::send_event") if facts.find_fn("watchexec::sources::signal::send_event") else None
+    cands = facts.fns_matching(r"^watchexec::sources::signal::.*send_event(::\{closure#\d+\})?$")
+    body = [c for c in cands if c.kind == "coroutine"] or cands
+    sigf = ctx.anchor_one(rule, "signal source send_event", body[:1] if body else [])
+    m = [x for x in thir.find(thir.root(sigf), "match") if x["sty"].endswith("watchexec_signals::Signal")]
+    if len(m) != 1:
+        ctx.violation(rule, "floor:signal-priority-match", "signal source no longer maps signals to priorities with one match", sigf.loc(sigf.line))
+    else:
+        S = "watchexec_signals::Signal"
+        want = {"Interrupt": "Urgent", "Terminate": "Urgent", "Hangup": "High", "Quit": "High", "User1": "High", "User2": "High",
+                "ForceStop": "High", "Custom": "High"}
+        for v, pr in sorted(want.items()):
+            val = ("v", S, v, {"0": thir.ANY} if v == "Custom" else {})
+            i = thir.first_arm(m[0], val)
+            got = None
+            if i is not None:
+                ev = thir.expr_value(m[0]["arms"][i]["b"])
+                got = ev[2] if ev[0] == "v" else None
+            ctx.require(got == pr, rule, "signal-priority:" + v, "signal %s is queued at %s priority" % (v, pr), sigf.loc(m[0]["l"]),
+                        fail="signal %s is queued at %s priority, documented %s" % (v, got, pr))
+    kb = [c for c in facts.fns_matching(r"^watchexec::sources::keyboard::.*send_event") if c.kind == "coroutine"]
+    kbf = ctx.anchor_one(rule, "keyboard source send_event", kb[:1])
+    sends = [t for _, t in kbf.calls() if t.callee.is_("async_priority_channel::Sender::send", "async_priority_channel::Sender::try_send")]
+    ok = False
+    for t in sends:
+        for a in origins(kbf, t.args[2] if len(t.args) > 2 else t.args[-1]):
+            if a.kind == "agg":
+                st = kbf.blocks[a.data[0]].stmts[a.data[1]]
+                ad = st.rv.agg_adt()
+                if ad and ad[0].endswith("Priority") and ad[1] == "Normal":
+                    ok = True
+    ctx.require(ok, rule, "keyboard-priority", "keyboard EOF is queued at Normal priority", kbf.loc(kbf.line),
+                fail="keyboard events are not queued at Normal priority")
+    pe = ctx.anchor_fn(rule, "watchexec::sources::fs::process_event")
+    sends = [t for _, t in pe.calls() if t.callee.is_("async_priority_channel::Sender::try_send", "async_priority_channel::Sender::send")]
+    ok = False
+    for t in sends:
+        for a in origins(pe, t.args[-1]):
+            if a.kind == "agg":
+                st = pe.blocks[a.data[0]].stmts[a.data[1]]
+                ad = st.rv.agg_adt()
+                if ad and ad[0].endswith("Priority") and ad[1] == "Normal":
+                    ok = True
+    ctx.require(len(sends) == 1 and ok, rule, "fs-priority", "filesystem events are queued once each at Normal priority", pe.loc(pe.line),
+                fail="filesystem events are not queued exactly once at Normal priority")
+
+
+def source_send_paths(ctx, rule):
+    """signal and keyboard sources: blocking send, a failed send is reported (shared with C08)"""
+    facts = ctx.facts
+    for name, regex in (("signal", r"^watchexec::sources::signal::.*send_event"), ("keyboard", r"^watchexec::sources::keyboard::.*send_event")):
+        fn = [c for c in facts.fns_matching(regex) if c.kind == "coroutine"][:1]
+        fnn = ctx.anchor_one(rule, name + " send_event", fn)
+        en = pathx.Enum(interesting=throttle.interesting)
+        ps = en.paths(thir.root(fnn))
+        nerr = 0
+        for p in ps:
+            evs = p.ev
+            send_i = [i for i, e in enumerate(evs) if e[0] == "call" and strip_generics(e[1]).endswith("async_priority_channel::Sender::send")]
+            if not send_i:
+                continue
+            errarm = [i for i, e in enumerate(evs) if i > send_i[0] and e[0] in ("iflet", "arm") and "Err" in str(e[2]) and
+                      (e[3] is True if e[0] == "iflet" else True) and "Sender::send(events" in e[1]]
+            if errarm:
+                nerr += 1
+                rep = [e for e in evs[errarm[0]:] if e[0] == "call" and strip_generics(e[1]).endswith("mpsc::bounded::Sender::send")]
+                ctx.require(len(rep) == 1, rule, "%s-send-failure-reported" % name, "a failed event send is reported on the error channel", fnn.loc(fnn.line),
+                            fail="the %s source drops an event silently when the queue send fails" % name)
+        ctx.floor(rule, name + " send-failure paths", nerr, 1)
+
+
+def synthetic_send(ctx, rule):
+    """Watchexec::send_event queues the given event at the given priority on the worker's queue, unmodified (shared with C02)"""
+    facts = ctx.facts
+    se = ctx.anchor_one(rule, "send_event coroutine", [c for c in facts.children(ctx.anchor_fn(rule, "watchexec::watchexec::Watchexec::send_event")) if c.kind == "coroutine"])
+    sends = [[pathx.desc(a) for a in nd["a"]] for c, nd in thir.calls_in(thir.root(se)) if strip_generics(c).endswith("async_priority_channel::Sender::send")]
+    ctx.require(len(sends) == 1 and sends[0][0].lstrip("^") == "self.event_input" and [x.lstrip("^") for x in sends[0][1:]] == ["event", "priority"], rule, "send-event",
+                "send_event() queues the given event at the given priority", se.loc(se.line), detail=str(sends))
+    # (the async desugaring itself moves the parameters in with `let event = event;` - only a binding to something else counts)
+    rebinds = [st["p"].get("n") for st in thir.walk(thir.root(se)) if isinstance(st, dict) and st.get("k") == "let" and st["p"].get("k") == "bind" and st["p"].get("n") in ("event", "priority")
+               and isinstance(st.get("i"), dict) and pathx.desc(st["i"]).lstrip("^") != st["p"].get("n")]
+    reass = [pathx.desc(a["a"]) for a in thir.find(thir.root(se), "assign") if pathx.desc(a["a"]).lstrip("^") in ("event", "priority")]
+    ctx.require(not rebinds and not reass, rule, "send-event-verbatim", "send_event() does not rewrite the event or its priority", se.loc(se.line), detail=str(rebinds + reass),
+                fail="Watchexec::send_event re-binds %s before queueing: the event is not queued as given (e.g. its priority is changed, which changes whether it is filtered and debounced)" % (rebinds + reass))
+
+
 def run(ctx):
     ctx.level = "other"
     ctx.undecided = ("exactly-once delivery and FIFO/priority order inside async_priority_channel; fairness between concurrent producers; "
@@ -249,16 +338,14 @@ def run(ctx):
         n1 = [a for c, a in calls if c.endswith("Notify::notify_one")]
         ctx.require(n1 == [["self.start_lock"]], "R01.8", "main-notifies", "Watchexec::main() releases the start lock", mn.loc(mn.line), detail=str(n1),
                     fail="Watchexec::main() no longer notifies the start lock: the main task never starts")
-        se = ctx.anchor_one("R01.8", "send_event coroutine", [c for c in facts.children(ctx.anchor_fn("R01.8", "watchexec::watchexec::Watchexec::send_event")) if c.kind == "coroutine"])
-        sends = [[pathx.desc(a) for a in nd["a"]] for c, nd in thir.calls_in(thir.root(se)) if strip_generics(c).endswith("async_priority_channel::Sender::send")]
-        ctx.require(len(sends) == 1 and sends[0][0].lstrip("^") == "self.event_input" and [x.lstrip("^") for x in sends[0][1:]] == ["event", "priority"], "R01.8", "send-event",
-                    "send_event() queues the given event at the given priority", se.loc(se.line), detail=str(sends))
-        # (the async desugaring itself moves the parameters in with `let event = event;` - only a binding to something else counts)
-        rebinds = [st["p"].get("n") for st in thir.walk(thir.root(se)) if isinstance(st, dict) and st.get("k") == "let" and st["p"].get("k") == "bind" and st["p"].get("n") in ("event", "priority")
-                   and isinstance(st.get("i"), dict) and pathx.desc(st["i"]).lstrip("^") != st["p"].get("n")]
-        reass = [pathx.desc(a["a"]) for a in thir.find(thir.root(se), "assign") if pathx.desc(a["a"]).lstrip("^") in ("event", "priority")]
-        ctx.require(not rebinds and not reass, "R01.8", "send-event-verbatim", "send_event() does not rewrite the event or its priority", se.loc(se.line), detail=str(rebinds + reass),
-                    fail="Watchexec::send_event re-binds %s before queueing: the event is not queued as given (e.g. its priority is changed, which changes whether it is filtered and debounced)" % (rebinds + reass))
+        synthetic_send(ctx, "R01.8")
+    except Skip:
+        pass
+
+    # the handler is called without the handler slot's lock held (a handler that replaces itself must not deadlock the worker) - rule owned by C13
+    try:
+        from . import c13 as _c13l
+        _c13l.lock_scope(ctx, "R01.3")
     except Skip:
         pass
 
@@ -327,51 +414,7 @@ def run(ctx):
 
     # ---- R01.4 priorities at the sources
     try:
-        sig = ctx.anchor_fn("R01.4", "watchexec::sources::signal::send_event") if facts.find_fn("watchexec::sources::signal::send_event") else None
-        cands = facts.fns_matching(r"^watchexec::sources::signal::.*send_event(::\{closure#\d+\})?$")
-        body = [c for c in cands if c.kind == "coroutine"] or cands
-        sigf = ctx.anchor_one("R01.4", "signal source send_event", body[:1] if body else [])
-        m = [x for x in thir.find(thir.root(sigf), "match") if x["sty"].endswith("watchexec_signals::Signal")]
-        if len(m) != 1:
-            ctx.violation("R01.4", "floor:signal-priority-match", "signal source no longer maps signals to priorities with one match", sigf.loc(sigf.line))
-        else:
-            S = "watchexec_signals::Signal"
-            want = {"Interrupt": "Urgent", "Terminate": "Urgent", "Hangup": "High", "Quit": "High", "User1": "High", "User2": "High",
-                    "ForceStop": "High", "Custom": "High"}
-            for v, pr in sorted(want.items()):
-                val = ("v", S, v, {"0": thir.ANY} if v == "Custom" else {})
-                i = thir.first_arm(m[0], val)
-                got = None
-                if i is not None:
-                    ev = thir.expr_value(m[0]["arms"][i]["b"])
-                    got = ev[2] if ev[0] == "v" else None
-                ctx.require(got == pr, "R01.4", "signal-priority:" + v, "signal %s is queued at %s priority" % (v, pr), sigf.loc(m[0]["l"]),
-                            fail="signal %s is queued at %s priority, documented %s" % (v, got, pr))
-        kb = [c for c in facts.fns_matching(r"^watchexec::sources::keyboard::.*send_event") if c.kind == "coroutine"]
-        kbf = ctx.anchor_one("R01.4", "keyboard source send_event", kb[:1])
-        sends = [t for _, t in kbf.calls() if t.callee.is_("async_priority_channel::Sender::send", "async_priority_channel::Sender::try_send")]
-        ok = False
-        for t in sends:
-            for a in origins(kbf, t.args[2] if len(t.args) > 2 else t.args[-1]):
-                if a.kind == "agg":
-                    st = kbf.blocks[a.data[0]].stmts[a.data[1]]
-                    ad = st.rv.agg_adt()
-                    if ad and ad[0].endswith("Priority") and ad[1] == "Normal":
-                        ok = True
-        ctx.require(ok, "R01.4", "keyboard-priority", "keyboard EOF is queued at Normal priority", kbf.loc(kbf.line),
-                    fail="keyboard events are not queued at Normal priority")
-        pe = ctx.anchor_fn("R01.4", "watchexec::sources::fs::process_event")
-        sends = [t for _, t in pe.calls() if t.callee.is_("async_priority_channel::Sender::try_send", "async_priority_channel::Sender::send")]
-        ok = False
-        for t in sends:
-            for a in origins(pe, t.args[-1]):
-                if a.kind == "agg":
-                    st = pe.blocks[a.data[0]].stmts[a.data[1]]
-                    ad = st.rv.agg_adt()
-                    if ad and ad[0].endswith("Priority") and ad[1] == "Normal":
-                        ok = True
-        ctx.require(len(sends) == 1 and ok, "R01.4", "fs-priority", "filesystem events are queued once each at Normal priority", pe.loc(pe.line),
-                    fail="filesystem events are not queued exactly once at Normal priority")
+        source_priorities(ctx, "R01.4")
     except Skip:
         pass
 
@@ -430,24 +473,6 @@ def run(ctx):
 
     # ---- R01.5 failed sends reported
     try:
-        for name, regex in (("signal", r"^watchexec::sources::signal::.*send_event"), ("keyboard", r"^watchexec::sources::keyboard::.*send_event")):
-            fn = [c for c in facts.fns_matching(regex) if c.kind == "coroutine"][:1]
-            fnn = ctx.anchor_one("R01.5", name + " send_event", fn)
-            en = pathx.Enum(interesting=throttle.interesting)
-            ps = en.paths(thir.root(fnn))
-            nerr = 0
-            for p in ps:
-                evs = p.ev
-                send_i = [i for i, e in enumerate(evs) if e[0] == "call" and strip_generics(e[1]).endswith("async_priority_channel::Sender::send")]
-                if not send_i:
-                    continue
-                errarm = [i for i, e in enumerate(evs) if i > send_i[0] and e[0] in ("iflet", "arm") and "Err" in str(e[2]) and
-                          (e[3] is True if e[0] == "iflet" else True) and "Sender::send(events" in e[1]]
-                if errarm:
-                    nerr += 1
-                    rep = [e for e in evs[errarm[0]:] if e[0] == "call" and strip_generics(e[1]).endswith("mpsc::bounded::Sender::send")]
-                    ctx.require(len(rep) == 1, "R01.5", "%s-send-failure-reported" % name, "a failed event send is reported on the error channel", fnn.loc(fnn.line),
-                                fail="the %s source drops an event silently when the queue send fails" % name)
-            ctx.floor("R01.5", name + " send-failure paths", nerr, 1)
+        source_send_paths(ctx, "R01.5")
     except Skip:
         pass
